@@ -44,7 +44,7 @@ Section G.
                             match x with
                             | RInline on sub => rec c sub nid v (prefix ++ "On" ++ camel on)%string
                             | RSpread n =>
-                                Some (push_field c nid (R None (snake n) n [QRequired] true None (recursive frs n)))
+                                Some (push_field c nid (R None (kw (snake n)) n [QRequired] true None (recursive frs n)))
                             | _ => Some c
                             end) mine c2
                       end
@@ -164,7 +164,7 @@ Section Map.
                | _ => fold_opt (fun c x =>
                         match x with
                         | RInline on sub => rec1 c sub nid v (prefix ++ "On" ++ camel on)%string
-                        | RSpread n => Some (push_field c nid (R1 None (snake n) n [QRequired] true None (recursive frs n)))
+                        | RSpread n => Some (push_field c nid (R1 None (kw (snake n)) n [QRequired] true None (recursive frs n)))
                         | _ => Some c
                         end) mine c2
                end
@@ -176,11 +176,11 @@ Section Map.
         assert (Hfold : forall c2 nid,
           fold_opt (fun c x => match x with
                      | RInline on sub => rec2 c sub nid v (prefix ++ "On" ++ camel on)%string
-                     | RSpread n => Some (push_field c nid (R2 None (snake n) n [QRequired] true None (recursive frs n)))
+                     | RSpread n => Some (push_field c nid (R2 None (kw (snake n)) n [QRequired] true None (recursive frs n)))
                      | _ => Some c end) mine (cmap g c2) =
           option_map (cmap g) (fold_opt (fun c x => match x with
                      | RInline on sub => rec1 c sub nid v (prefix ++ "On" ++ camel on)%string
-                     | RSpread n => Some (push_field c nid (R1 None (snake n) n [QRequired] true None (recursive frs n)))
+                     | RSpread n => Some (push_field c nid (R1 None (kw (snake n)) n [QRequired] true None (recursive frs n)))
                      | _ => Some c end) mine c2)).
         { intros c2 nid. apply fold_opt_cmap. intros c1 x _. destruct x as [a fd sub|on sub|n|]; try reflexivity.
           - apply Hrec.
